@@ -11,25 +11,29 @@ Blocks (`case <id>` … `end`):
 -/
 import TsdateVerif.Model.PriorGrid
 import TsdateVerif.Model.Proto
+import Std.Data.HashMap
 open Tsdate Tsdate.Proto Tsdate.PriorGrid
 
 def nan : Float := 0.0 / 0.0
 
-def indexOfBits (xs : Array Float) (x : Float) : Option Nat :=
-  xs.findIdx? (fun y => y.toBits == x.toBits)
+/-- bit pattern -> position in the key list -/
+def indexMap (xs : List Float) : Std.HashMap UInt64 Nat :=
+  (xs.zipIdx).foldl (fun m (x, i) => m.insert x.toBits i) {}
 
 /-- rows of a table: lines `key i v…` -/
-def tableRows (blk : List (List String)) (key : String) : Option (List (Nat × Array Float)) :=
-  mapAll (fun (l : List String) => match l with
+def tableRows (blk : List (List String)) (key : String) : Option (Std.HashMap Nat (Array Float)) := do
+  let rows ← mapAll (fun (l : List String) => match l with
     | _ :: i :: vs => do
       let i ← i.toNat?
       let vs ← mapAll hexToFloat vs
       pure (i, vs.toArray)
     | _ => none) (blk.filter (fun l => l.head? = some key))
+  pure (rows.foldl (fun m (i, r) => m.insert i r) {})
 
-def lookup (rows : List (Nat × Array Float)) (keys : Array Float) (i : Nat) (x : Float) : Option Float := do
-  let r ← rows.lookup i
-  let j ← indexOfBits keys x
+def lookup (rows : Std.HashMap Nat (Array Float)) (keys : Std.HashMap UInt64 Nat) (i : Nat) (x : Float) :
+    Option Float := do
+  let r ← rows[i]?
+  let j ← keys[x.toBits]?
   r[j]?
 
 def runCase (blk : List (List String)) : Option String := do
@@ -47,8 +51,8 @@ def runCase (blk : List (List String)) : Option String := do
     let ppfRows ← tableRows blk "ppf"
     let cdfRows ← tableRows blk "cdf"
     let keys ← mapAll hexToFloat (← field blk "cdfkeys")
-    let percA := perc.toArray
-    let keysA := keys.toArray
+    let percA := indexMap perc
+    let keysA := indexMap keys
     let ppf : Nat → Float → Float := fun i p => (lookup ppfRows percA i p).getD nan
     let cdf : Nat → Float → Float := fun i t => (lookup cdfRows keysA i t).getD nan
     -- validate that every query of the model is answered by the tables (same fold as the model)
